@@ -299,6 +299,10 @@ package inputrc
 //@   ensures [set-keymap] name != "keymap" ==> p.keymap == old(p.keymap)
 //@   ensures [set-var] ptop(p) && name != "keymap" && name != "editing-mode" && result == nil ==> nset(handler) == old(nset(handler)) + 1 && lastsetname(handler) == name
 
+// ifcond: what "$if val" tests (C13: "active for the application's mode, terminal and name"): mode= and term=
+// compare the rest of the argument with the parser's mode / terminal as written, anything else is the
+// application name, compared case-insensitively.
+//@ spec ifcond(val string, mode string, term string, app string) bool = ite(len(val) >= 5 && val[:5] == "mode=", val[5:] == mode, ite(len(val) >= 5 && val[:5] == "term=", val[5:] == term, strlower(val) == app))
 //@ func (*Parser).do
 //@   props C12 C13
 //@   terminates
@@ -308,6 +312,7 @@ package inputrc
 //@   ensures [conds-nonempty] p != nil && len(p.conds) >= 1
 //@   ensures @C13 [conds-inv] pconds(p)
 //@   ensures @C13 [if-push] keyword == "$if" ==> len(p.conds) == old(len(p.conds)) + 1 && p.conds[:old(len(p.conds))] == old(p.conds) && (ptop(p) ==> old(ptop(p)))
+//@   ensures @C13 [if-evaluates] keyword == "$if" && old(ptop(p)) ==> (ptop(p) <==> ifcond(val, p.mode, p.term, p.app))
 //@   ensures @C13 [else-flip] keyword == "$else" && result == nil ==> len(p.conds) == old(len(p.conds)) && len(p.conds) >= 2 && p.conds[:len(p.conds) - 1] == old(p.conds)[:len(p.conds) - 1] && (ptop(p) <==> (!old(ptop(p)) && p.conds[len(p.conds) - 2]))
 //@   ensures @C13 [endif-pop] keyword == "$endif" && result == nil ==> len(p.conds) == old(len(p.conds)) - 1 && p.conds == old(p.conds)[:len(p.conds)]
 //@   ensures @C13 [error-noop] (keyword == "$else" || keyword == "$endif") && result != nil ==> p.conds == old(p.conds)
